@@ -299,6 +299,23 @@ class SQLiteAlterTableSQLResult(AlterTableSQLResult):
                 if new_field.column == field.column:
                     new_field.db_index = False
 
+        #
+        # The table-level indexes (unique_together, index_together and
+        # Meta.indexes) were dropped along with the old table as well. Any
+        # of those whose fields all still exist must be restored, too.
+        new_fields_by_name = dict(
+            (_field.name, _field)
+            for _field in new_fields
+        )
+
+        def _fields_exist(field_names):
+            return all(
+                _field_name.lstrip('-') in new_fields_by_name
+                for _field_name in field_names
+            )
+
+        meta = model._meta
+
         class _Model(object):
             class _meta(object):
                 db_table = table_name
@@ -307,10 +324,45 @@ class SQLiteAlterTableSQLResult(AlterTableSQLResult):
                 managed = True
                 proxy = False
                 swapped = False
-                index_together = []
-                indexes = []
+                index_together = [
+                    _field_names
+                    for _field_names in (meta.index_together or [])
+                    if _fields_exist(_field_names)
+                ]
+                indexes = [
+                    _index
+                    for _index in (getattr(meta, 'indexes', None) or [])
+                    if (_index.fields and _fields_exist(_index.fields) and
+                        not getattr(_index, 'contains_expressions', False))
+                ]
+
+                @staticmethod
+                def get_field(name):
+                    return new_fields_by_name[name]
 
         sql += sql_indexes_for_model(connection, _Model)
+
+        for field_names in (meta.unique_together or []):
+            if _fields_exist(field_names):
+                fields = [
+                    new_fields_by_name[_field_name]
+                    for _field_name in field_names
+                ]
+                index_state = evolver.database_state.find_index(
+                    table_name=table_name,
+                    columns=[_field.column for _field in fields],
+                    unique=True)
+
+                if index_state:
+                    index_name = index_state.name
+                else:
+                    index_name = evolver.get_new_index_name(model, fields,
+                                                            unique=True)
+
+                sql.append(
+                    'CREATE UNIQUE INDEX %s ON %s (%s);'
+                    % (qn(index_name), qn(table_name),
+                       ', '.join(qn(_field.column) for _field in fields)))
 
         # We've added all the indexes above. Any that were already there
         # will be in the database state. However, if we've *specifically*
